@@ -7,8 +7,11 @@ import PraatModel.Lemmas.Strip
 
 Exact arithmetic.  No separation hypothesis: `deleteEntry` looks for the exactly matching entry first, so deleting a
 member removes that member however close other entries are; the tolerant `Interval.__eq__` only decides what happens
-to an argument that is not in the tier (`delete_spec`, second clause).  The inserted entry's label is assumed already stripped (`insertEntry`
-strips it first; `pyStrip` is modelled, its idempotence is checked by the harness).
+to an argument that is not in the tier (`delete_spec`, second clause).  No hypothesis on the inserted entry's label:
+`insertEntry` strips it first, so the entry that arrives in the tier is `stripped x` (`insertEntry_strip`; the
+`*_stripped` lemmas are the same statements for an entry whose label is already stripped).  A zero-length or reversed
+entry (`x.e ≤ x.s`) is refused with `ArgumentError` in every mode, by the `crop` call that looks for the colliding
+entries (`insert_rejects`), so `x.s < x.e` in the theorems below excludes nothing that could be inserted.
 -/
 namespace C11
 
@@ -44,7 +47,7 @@ theorem delete_matches (t : ITier Int) (hwf : t.WF) (x : Iv Int) :
 
 /-- **no collision**: the entry is added and nothing else changes; the tier stays in time order and the span
 grows just enough to contain the new entry -/
-theorem insert_nocollision (t : ITier Int) (hwf : t.WF) (x : Iv Int) (hx : x.s < x.e) (hstr : pyStrip x.l = x.l)
+theorem insert_nocollision_stripped (t : ITier Int) (hwf : t.WF) (x : Iv Int) (hx : x.s < x.e) (hstr : pyStrip x.l = x.l)
     (mode : InsMode) (hfree : ∀ iv ∈ t.es, iv.e ≤ x.s ∨ x.e ≤ iv.s) :
     ∃ t', t.insertEntry x mode = .ok t' ∧ t'.WF ∧ t'.name = t.name ∧
       (∀ y, y ∈ t'.es ↔ y ∈ t.es ∨ y = x) ∧ t'.lo = min t.lo x.s ∧ t'.hi = max t.hi x.e := by
@@ -52,7 +55,7 @@ theorem insert_nocollision (t : ITier Int) (hwf : t.WF) (x : Iv Int) (hx : x.s <
   exact ⟨_, insertEntry_free t x mode hx hstr hwf.pos hfree, hfin⟩
 
 /-- **collision, mode `error`**: `CollisionError`, and (the model being pure) nothing changes -/
-theorem insert_error (t : ITier Int) (hwf : t.WF) (x : Iv Int) (hx : x.s < x.e) (hstr : pyStrip x.l = x.l)
+theorem insert_error_stripped (t : ITier Int) (hwf : t.WF) (x : Iv Int) (hx : x.s < x.e) (hstr : pyStrip x.l = x.l)
     (iv : Iv Int) (hiv : iv ∈ t.es) (hcol : iv.s < x.e ∧ x.s < iv.e) :
     t.insertEntry x .error = .error .CollisionError := by
   obtain ⟨mt, hc, hm⟩ := crop_matches t hwf x hx
@@ -101,7 +104,7 @@ theorem others_free_of_hull (t : ITier Int) (hwf : t.WF) (x : Iv Int) (hx : x.s 
       · unfold hullMax; omega
 
 /-- **collision, mode `replace`**: exactly the colliding entries are removed and the new one inserted -/
-theorem insert_replace (t : ITier Int) (hwf : t.WF) (x : Iv Int) (hx : x.s < x.e)
+theorem insert_replace_stripped (t : ITier Int) (hwf : t.WF) (x : Iv Int) (hx : x.s < x.e)
     (hstr : pyStrip x.l = x.l) (hcol : colliding t x ≠ []) :
     ∃ t', t.insertEntry x .replace = .ok t' ∧ t'.WF ∧ t'.name = t.name ∧
       (∀ y, y ∈ t'.es ↔ (y ∈ t.es ∧ ¬ (y.s < x.e ∧ x.s < y.e)) ∨ y = x) ∧
@@ -127,7 +130,7 @@ theorem insert_replace (t : ITier Int) (hwf : t.WF) (x : Iv Int) (hx : x.s < x.e
     rw [hfin.2.2.1 y, hmem0 y]
     simp [ov]
 
-/-- the merged label is the `-`-join of stripped labels, hence stripped: the hypothesis `hMstr` of `insert_merge`
+/-- the merged label is the `-`-join of stripped labels, hence stripped: the hypothesis `hMstr` of `insert_merge_stripped`
 always holds on a well-formed tier -/
 theorem merged_label_stripped (t : ITier Int) (hwf : t.WF) (x : Iv Int) (hstr : pyStrip x.l = x.l) :
     pyStrip (merged t x).l = (merged t x).l := by
@@ -143,7 +146,7 @@ theorem merged_label_stripped (t : ITier Int) (hwf : t.WF) (x : Iv Int) (hstr : 
 
 /-- **collision, mode `merge`**: the colliding entries and the new one are replaced by one entry covering their
 joint extent, labelled with the `-`-join of all their labels in tuple order (start, end, label) -/
-theorem insert_merge (t : ITier Int) (hwf : t.WF) (x : Iv Int) (hx : x.s < x.e)
+theorem insert_merge_stripped (t : ITier Int) (hwf : t.WF) (x : Iv Int) (hx : x.s < x.e)
     (hstr : pyStrip x.l = x.l) (hcol : colliding t x ≠ [])
     (hMstr : pyStrip (merged t x).l = (merged t x).l) :
     (merged t x).s = hullMin ((colliding t x).map (·.s)) x.s ∧
@@ -259,6 +262,70 @@ theorem insert_merge (t : ITier Int) (hwf : t.WF) (x : Iv Int) (hx : x.s < x.e)
     rw [hfin.2.2.1 y, hmem0 y]
     simp [ov]
 
+/-! ## the registered statements: no hypothesis on the label, and the degenerate entries -/
+
+/-- the entry as it arrives in the tier: `insertEntry` strips the label first -/
+def stripped (x : Iv Int) : Iv Int := { x with l := pyStrip x.l }
+
+theorem stripped_stripped (x : Iv Int) : pyStrip (stripped x).l = (stripped x).l := pyStrip_idem _
+
+/-- `insertEntry` sees only the stripped entry -/
+theorem insertEntry_strip (t : ITier Int) (x : Iv Int) (mode : InsMode) :
+    t.insertEntry x mode = t.insertEntry (stripped x) mode := by
+  unfold ITier.insertEntry stripped
+  simp only [pyStrip_idem]
+
+/-- **a zero-length or reversed entry is refused** (`x.e ≤ x.s`), in every mode, on every tier (well-formed or not),
+whatever the label: the `crop(start, end, 'lax')` call that looks for colliding entries raises `ArgumentError`
+("start time must occur before end time"); the model being pure, nothing changes.  Replayed on the real class:
+`insertEntry((4,4,'z'))`, `((5,4,'z'))`, `((12,12,'z'))` raise ArgumentError under 'error', 'replace' and 'merge'. -/
+theorem insert_rejects (t : ITier Int) (x : Iv Int) (mode : InsMode) (h : x.e ≤ x.s) :
+    t.insertEntry x mode = .error .ArgumentError := by
+  unfold ITier.insertEntry
+  simp only
+  rw [C06.crop_rejects t x.s x.e .lax false h]
+  rfl
+
+/-- **no collision**: the entry (its label stripped) is added and nothing else changes; the tier stays in time
+order and the span grows just enough to contain the new entry.  `hx` excludes only what `insert_rejects` covers. -/
+theorem insert_nocollision (t : ITier Int) (hwf : t.WF) (x : Iv Int) (hx : x.s < x.e)
+    (mode : InsMode) (hfree : ∀ iv ∈ t.es, iv.e ≤ x.s ∨ x.e ≤ iv.s) :
+    ∃ t', t.insertEntry x mode = .ok t' ∧ t'.WF ∧ t'.name = t.name ∧
+      (∀ y, y ∈ t'.es ↔ y ∈ t.es ∨ y = stripped x) ∧ t'.lo = min t.lo x.s ∧ t'.hi = max t.hi x.e := by
+  rw [insertEntry_strip]
+  exact insert_nocollision_stripped t hwf (stripped x) hx (stripped_stripped x) mode hfree
+
+/-- **collision, mode `error`**: `CollisionError`, and (the model being pure) nothing changes -/
+theorem insert_error (t : ITier Int) (hwf : t.WF) (x : Iv Int) (hx : x.s < x.e)
+    (iv : Iv Int) (hiv : iv ∈ t.es) (hcol : iv.s < x.e ∧ x.s < iv.e) :
+    t.insertEntry x .error = .error .CollisionError := by
+  rw [insertEntry_strip]
+  exact insert_error_stripped t hwf (stripped x) hx (stripped_stripped x) iv hiv hcol
+
+/-- **collision, mode `replace`**: exactly the colliding entries are removed and the new one (label stripped)
+inserted -/
+theorem insert_replace (t : ITier Int) (hwf : t.WF) (x : Iv Int) (hx : x.s < x.e) (hcol : colliding t x ≠ []) :
+    ∃ t', t.insertEntry x .replace = .ok t' ∧ t'.WF ∧ t'.name = t.name ∧
+      (∀ y, y ∈ t'.es ↔ (y ∈ t.es ∧ ¬ (y.s < x.e ∧ x.s < y.e)) ∨ y = stripped x) ∧
+      t'.lo = min t.lo x.s ∧ t'.hi = max t.hi x.e := by
+  rw [insertEntry_strip]
+  exact insert_replace_stripped t hwf (stripped x) hx (stripped_stripped x) hcol
+
+/-- **collision, mode `merge`**: the colliding entries and the new one are replaced by one entry covering their
+joint extent, labelled with the `-`-join of all their labels (the new one's stripped) in tuple order
+(start, end, label).  No hypothesis on any label: the entries of a well-formed tier carry stripped labels, the new
+label is stripped by `insertEntry`, and a `-`-join of stripped labels is stripped (`merged_label_stripped`). -/
+theorem insert_merge (t : ITier Int) (hwf : t.WF) (x : Iv Int) (hx : x.s < x.e) (hcol : colliding t x ≠ []) :
+    (merged t (stripped x)).s = hullMin ((colliding t x).map (·.s)) x.s ∧
+    (merged t (stripped x)).e = hullMax ((colliding t x).map (·.e)) x.e ∧
+    (merged t (stripped x)).l = pyJoin "-" ((sortIvs (colliding t x ++ [stripped x])).map (·.l)) ∧
+    ∃ t', t.insertEntry x .merge = .ok t' ∧ t'.WF ∧ t'.name = t.name ∧
+      (∀ y, y ∈ t'.es ↔ (y ∈ t.es ∧ ¬ (y.s < x.e ∧ x.s < y.e)) ∨ y = merged t (stripped x)) ∧
+      t'.lo = min t.lo x.s ∧ t'.hi = max t.hi x.e := by
+  rw [insertEntry_strip]
+  exact insert_merge_stripped t hwf (stripped x) hx (stripped_stripped x) hcol
+    (merged_label_stripped t hwf (stripped x) (stripped_stripped x))
+
 /-- **deleteEntry** removes exactly the given entry (whatever else in the tier is close to it); an entry that no
 member equals (even tolerantly) raises -/
 theorem delete_spec (t : ITier Int) (x : Iv Int) :
@@ -269,6 +336,27 @@ theorem delete_spec (t : ITier Int) (x : Iv Int) :
     simp [ITier.deleteEntry, deleteIv_of_mem t.es x hx, bind, Except.bind, pure, Except.pure]
   · intro h
     simp [ITier.deleteEntry, deleteIv_not_mem t.es x h, bind, Except.bind]
+
+theorem deleteIvTol_first (pre post : List (Iv Int)) (p x : Iv Int) (hpre : ∀ q ∈ pre, ivEq q x = false)
+    (hp : ivEq p x = true) : deleteIvTol (pre ++ p :: post) x = .ok (pre ++ post) := by
+  induction pre with
+  | nil => simp [deleteIvTol, hp]
+  | cons q qs ih =>
+    simp only [List.cons_append, deleteIvTol, hpre q (by simp), Bool.false_eq_true, if_false,
+      ih (fun q' hq' => hpre q' (List.mem_cons_of_mem _ hq'))]
+    rfl
+
+/-- **the third case of `deleteEntry`** (besides `delete_spec`: "the argument is a member" / "no member equals it"):
+the argument is NOT a member but some member is equal to it under the library's tolerant `Interval.__eq__`
+(`math.isclose` on both times, same label) — then the FIRST such member is removed, nothing is raised.  This is the
+library's notion of "the given entry"; replayed: `IntervalTier('T',[(1.0,2.0,'a')],0,10).deleteEntry(Interval(1.0000000001,2.0,'a'))`
+leaves the tier empty, `Interval(1.00001,2.0,'a')` raises ValueError. -/
+theorem delete_tolerant (t : ITier Int) (x : Iv Int) (hx : x ∉ t.es) (pre post : List (Iv Int)) (p : Iv Int)
+    (hes : t.es = pre ++ p :: post) (hpre : ∀ q ∈ pre, ivEq q x = false) (hp : ivEq p x = true) :
+    t.deleteEntry x = .ok { t with es := pre ++ post } := by
+  simp only [ITier.deleteEntry, deleteIv, eraseSameIv_none t.es x hx]
+  rw [hes, deleteIvTol_first pre post p x hpre hp]
+  rfl
 
 /-- a deletion keeps the tier well-formed (span untouched) -/
 theorem delete_wf (t : ITier Int) (hwf : t.WF) (x : Iv Int) : ({ t with es := t.es.erase x } : ITier Int).WF := by
@@ -294,13 +382,10 @@ def run (t : ITier Int) : List Op → ITier Int
     | .ok t' => run t' ops
     | .error _ => run t ops
 
-/-- the inserted entries of a history are admissible: positive length, stripped label, and — for merges — a merged
-label that is stripped (see the note at `insert_merge`) -/
-def OpOk (t : ITier Int) : Op → Prop
-  | .insert x m => x.s < x.e ∧ pyStrip x.l = x.l ∧ (m = .merge → pyStrip (merged t x).l = (merged t x).l)
-  | .delete _ => True
-
-theorem step_wf (t : ITier Int) (hwf : t.WF) (op : Op) (hop : OpOk t op)
+/-- **one step, no side condition**: whatever entry is inserted (any times, any label, any mode) or deleted, a
+result that `insertEntry` / `deleteEntry` returns for a well-formed tier is well-formed (a zero-length or reversed
+entry returns nothing: `insert_rejects`) -/
+theorem step_wf (t : ITier Int) (hwf : t.WF) (op : Op)
     (t' : ITier Int) (h : step t op = .ok t') : t'.WF := by
   cases op with
   | delete x =>
@@ -320,45 +405,41 @@ theorem step_wf (t : ITier Int) (hwf : t.WF) (op : Op) (hop : OpOk t op)
           fun y hy => hwf.inLo y (hs.subset hy), fun y hy => hwf.inHi y (hs.subset hy),
           fun y hy => hwf.stripped y (hs.subset hy), hwf.span⟩
   | insert x m =>
-    obtain ⟨hx, hstr, hM⟩ := hop
     simp only [step] at h
+    have hx : x.s < x.e := by
+      apply Classical.byContradiction
+      intro hc
+      rw [insert_rejects t x m (by omega)] at h; cases h
     by_cases hcol : colliding t x = []
     · have hfree : ∀ iv ∈ t.es, iv.e ≤ x.s ∨ x.e ≤ iv.s := by
         intro iv hiv
         have := List.filter_eq_nil_iff.1 hcol iv hiv
         simp [ov] at this; omega
-      obtain ⟨t'', e, w, _⟩ := insert_nocollision t hwf x hx hstr m hfree
+      obtain ⟨t'', e, w, _⟩ := insert_nocollision t hwf x hx m hfree
       rw [h] at e; cases e; exact w
     · cases m with
       | replace =>
-        obtain ⟨t'', e, w, _⟩ := insert_replace t hwf x hx hstr hcol
+        obtain ⟨t'', e, w, _⟩ := insert_replace t hwf x hx hcol
         rw [h] at e; cases e; exact w
       | merge =>
-        obtain ⟨_, _, _, t'', e, w, _⟩ := insert_merge t hwf x hx hstr hcol (hM rfl)
+        obtain ⟨_, _, _, t'', e, w, _⟩ := insert_merge t hwf x hx hcol
         rw [h] at e; cases e; exact w
       | error =>
         obtain ⟨iv, hiv⟩ := List.exists_mem_of_ne_nil _ hcol
         have hm := List.mem_filter.1 hiv
-        have := insert_error t hwf x hx hstr iv hm.1 (by simpa [ov] using hm.2)
+        have := insert_error t hwf x hx iv hm.1 (by simpa [ov] using hm.2)
         rw [h] at this; cases this
 
-/-- along the history every operation is admissible in the state it is applied to -/
-def Admissible : ITier Int → List Op → Prop
-  | _, [] => True
-  | t, op :: ops => OpOk t op ∧ (∀ t', step t op = .ok t' → Admissible t' ops) ∧
-      (∀ e, step t op = .error e → Admissible t ops)
-
-/-- **histories**: after any admissible sequence of inserts and deletes (of any length) the tier is well-formed
-(time order, no overlap, inside its span, stripped labels) -/
-theorem run_wf (t : ITier Int) (hwf : t.WF) (ops : List Op) (h : Admissible t ops) : (run t ops).WF := by
+/-- **histories**: after ANY sequence of inserts and deletes (of any length, arbitrary entries, labels and modes)
+the tier is well-formed (time order, no overlap, inside its span, stripped labels) -/
+theorem run_wf (t : ITier Int) (hwf : t.WF) (ops : List Op) : (run t ops).WF := by
   induction ops generalizing t with
   | nil => exact hwf
   | cons op ops ih =>
-    obtain ⟨hop, h1, h2⟩ := h
     simp only [run]
     cases hs : step t op with
-    | ok t' => exact ih t' (step_wf t hwf op hop t' hs) (h1 t' hs)
-    | error e => exact ih t hwf (h2 e hs)
+    | ok t' => exact ih t' (step_wf t hwf op t' hs)
+    | error e => exact ih t hwf
 
 /-! ## point tiers -/
 
@@ -381,14 +462,15 @@ theorem pinsert_error (t : PTier Int) (x : Pt Int) (p : Pt Int) (hp : p ∈ t.ps
 /-! ## non-vacuity -/
 example : C07.exTier.WF := C07.exTier_wf
 /-- a history on a tier with two tolerantly-equal entries (outside the former separation hypothesis): delete the
-second of the close pair, then insert over the place of both in `replace` mode -/
-example : Admissible C07.closeTier
-    [.delete ⟨10000000005, 10000000010, "x"⟩, .insert ⟨10000000000, 10000000010, "n"⟩ .replace] := by
-  refine ⟨trivial, ?_, ?_⟩
-  · intro t' h
-    refine ⟨⟨by decide, by decide, by intro h; cases h⟩, fun _ _ => trivial, fun _ _ => trivial⟩
-  · intro e h
-    refine ⟨⟨by decide, by decide, by intro h; cases h⟩, fun _ _ => trivial, fun _ _ => trivial⟩
+second of the close pair, then insert — with an unstripped label — over the place of both in `replace` mode -/
+example : (run C07.closeTier
+    [.delete ⟨10000000005, 10000000010, "x"⟩, .insert ⟨10000000000, 10000000010, " n "⟩ .replace]).WF :=
+  run_wf _ C07.closeTier_wf _
+#guard (run C07.closeTier
+    [.delete ⟨10000000005, 10000000010, "x"⟩, .insert ⟨10000000000, 10000000010, " n "⟩ .replace]).es ==
+  [⟨0, 10000000000, "a"⟩, ⟨10000000000, 10000000010, "n"⟩, ⟨10000000010, 20000000000, "b"⟩]
+#guard (C07.exTier.insertEntry ⟨40, 40, "z"⟩ .merge).toOption.isNone
+#guard (C07.exTier.insertEntry ⟨50, 40, "z"⟩ .replace).toOption.isNone
 #guard (C07.closeTier.deleteEntry ⟨10000000005, 10000000010, "x"⟩).toOption.map (·.es) ==
   some [⟨0, 10000000000, "a"⟩, ⟨10000000000, 10000000005, "x"⟩, ⟨10000000010, 20000000000, "b"⟩]
 #guard (C07.exTier.insertEntry ⟨20, 85, "n"⟩ .merge).toOption.map (fun t => (t.es, t.lo, t.hi)) ==
